@@ -53,6 +53,17 @@ fn check_value(v: u64, with_poll: bool) -> Result<(), String> {
     if props.encode_len() != out.len() {
         return Err(format!("encoded size {} reported for value {} but {} bytes written", props.encode_len(), v, out.len()));
     }
+    if with_poll {
+        // the same through sinks that accept one or two bytes per write (boundary and sampled values)
+        for k in [1usize, 2, 3] {
+            let steps = [crate::sio::WStep::Accept(k); 12];
+            let mut w = crate::sio::ScriptedWriter::new(&steps, 16);
+            match props.encode(&mut w) {
+                Ok(()) if w.out == out => {}
+                other => return Err(format!("var-int writer for {} through a sink accepting {} byte(s) per write: {:?}, wrote {} instead of {}", v, k, other, hex(&w.out), hex(&out))),
+            }
+        }
+    }
     // reader inverts the writer and reports what it consumed
     let mut r: &[u8] = &out;
     match block_on(v5::SubscribeProperties::decode_async(&mut r, v5::PacketType::Subscribe)) {
